@@ -10,6 +10,7 @@ import (
 	"verif/harness/kit"
 	"verif/harness/ref"
 
+	"github.com/cuteLittleDevil/go-jt808/protocol/jt808"
 	"github.com/cuteLittleDevil/go-jt808/protocol/model"
 	"github.com/cuteLittleDevil/go-jt808/shared/consts"
 	"pgregory.net/rapid"
@@ -26,6 +27,9 @@ type c08Case struct {
 	Carrier string     `json:"carrier"` // "0200" | "0704" | "0801"
 	Blocks  []locBlock `json:"blocks"`
 	V2019   bool       `json:"header_2019"`
+	// Reassembled: the body arrives the way the service hands over a sub-packaged upload - the message object of the
+	// last packet (fragment bit, package k of k in the header) with Body replaced by the concatenation
+	Reassembled int `json:"reassembled_from_packets,omitempty"`
 }
 
 var stdIDs = []byte{0x01, 0x02, 0x03, 0x04, 0x05, 0x06, 0x11, 0x12, 0x13, 0x25, 0x2a, 0x2b, 0x30, 0x31}
@@ -105,6 +109,9 @@ func genItems(t *rapid.T, label string, maxItems int, allowBad bool) []byte {
 
 func genC08(t *rapid.T) c08Case {
 	c := c08Case{Carrier: rapid.SampledFrom([]string{"0200", "0200", "0704", "0801"}).Draw(t, "carrier"), V2019: rapid.Bool().Draw(t, "hdr2019")}
+	if rapid.IntRange(0, 3).Draw(t, "reassembled") == 0 {
+		c.Reassembled = rapid.IntRange(2, 9).Draw(t, "packets")
+	}
 	n := 1
 	if c.Carrier == "0704" {
 		n = rapid.IntRange(1, 5).Draw(t, "blocks")
@@ -345,6 +352,16 @@ func checkC08(c c08Case, _ *kit.Collector) kit.Result {
 	res.NT = flagsSet && (nItems > 0 || c.Carrier == "0801")
 	id := map[string]uint16{"0200": 0x0200, "0704": 0x0704, "0801": 0x0801}[c.Carrier]
 	msg, err := jtMsg(id, c.V2019, exact(body))
+	if err == nil && c.Reassembled >= 2 {
+		tail := body[len(body)-min(len(body), 5):]
+		sp := ref.Spec{ID: id, Version2019: c.V2019, VersionByte: 1, Serial: 9, Fragmented: true, Total: uint16(c.Reassembled), No: uint16(c.Reassembled), Body: tail,
+			PhoneBCD: ref.PhoneBCDFromDigits("13800138000", map[bool]int{false: 6, true: 10}[c.V2019])}
+		msg = jt808.NewJTMessage()
+		if err = msg.Decode(sp.Build()); err == nil {
+			msg.Body = exact(body)
+			res.Labels = append(res.Labels, "reassembled_upload")
+		}
+	}
 	if err != nil {
 		res.Err = kit.Fail("frame rejected: %v", err)
 		return res
